@@ -3,7 +3,7 @@ import re
 
 from cv import err, flow, rules
 from cv.rules import events_of
-from props import errscope
+from props import common, errscope
 
 TITLE = "Validate is accurate: silent on healthy archives, loud on damage"
 TECHNIQUE = 'static analysis: error-discipline classification under validate (loudness), must-consult rule for the hunk count, coverage table of reporting sites'
@@ -210,3 +210,4 @@ def run(ck, w):
         ck.ok(o)
     else:
         ck.fail(o, vst.name, "range bookkeeping removed", "no start+len per block recorded")
+    common.cli_option(ck, w, "C09.4", "ValidateOptions", "skip_block_hashes", ("param", "quick"))
